@@ -196,7 +196,9 @@ def _shard_main(modname, ctx, outfile):
 
 
 def run_shards(modname, prop, tier, seed, nshards):
-    work = os.path.join(WORK, prop)
+    # one work directory per invocation: two runs of the same check must not
+    # delete each other's scratch files
+    work = os.path.join(WORK, f'{prop}-{os.getpid()}')
     shutil.rmtree(work, ignore_errors=True)
     os.makedirs(work, exist_ok=True)
     mpctx = multiprocessing.get_context('fork')
